@@ -185,8 +185,12 @@ Definition HostOK (hp hpo : list N -> result host) (hd : host -> list N) : Prop 
   /\ (forall h, op_args_ok (OSetIpHost h) -> host_text_ok (hd h) /\ hp (hd h) = Ok h /\ hpo (hd h) = Ok h)
   /\ hd (HDomain []) = [] /\ hp [] = Ok (HDomain []) /\ hpo [] = Ok (HDomain []).
 
-(* ---------- C02, full strength ---------- *)
-Definition C02_statement : Prop :=
+(* ---------- C02, full strength: the FIRST formulation, superseded by C02_Hist.C02_statement ----------
+   HostOK cannot be met by url::Host (Proofs/C02_Hist.v HostOK_old_unsat, C09_host_records_refuted), so this
+   statement says nothing about the real host functions, and read for them it is false (F-C02-9, a step outside
+   known_step).  Kept, with HostOK / known_step / Reachable, because theorems of other properties are stated
+   about these definitions. *)
+Definition C02_statement_v1 : Prop :=
   forall dbg hp hpo hd, HostOK hp hpo hd ->
   forall u, Reachable dbg hp hpo hd u -> Fixpoint_of_reparse dbg hp hpo hd u.
 
